@@ -34,7 +34,7 @@ CHECKS = {
  "C04": dict(
   category="exploration",
   technique="runtime trace monitor: raw lock-step client against a real imapserver connection with a recording stub backend; payloads are marker commands with unique tags/names; the dialogue generator is the reference framer; the vconn park signal decides 'no response is coming'; race detector on",
-  text="Dialogues over command templates in all three states x string argument forms (quoted / sync / non-sync / literal8) x announced sizes around 4096 and the APPEND limit x server literal policies, syntax errors before literals, trailing garbage, AUTHENTICATE and IDLE exchanges, plus random multi-command dialogues. Decides: every tagged response answers a command that was really sent, exactly once; no backend call originates from payload text; output is whole well-formed lines; '+' only when a sync literal / AUTHENTICATE / IDLE waits for it; accepted literal arguments arrive byte-exact.",
+  text="Dialogues over command templates in all three states x string argument forms (quoted / sync / non-sync / literal8) x announced sizes around 4096 and the APPEND limit x server literal policies, syntax errors before literals, trailing garbage, AUTHENTICATE and IDLE exchanges (incl. an Idle goroutine streaming updates while DONE and further commands arrive), rejected commands followed by 200..70000 bytes on the same line, plus random multi-command dialogues; each dialogue in lock-step, those without synchronising exchanges also in one single write (tagged-response order checked), a share with the server's reads cut into 1..5-byte segments. Decides: every tagged response answers a command that was really sent, exactly once; no backend call originates from payload text; output is whole well-formed lines; '+' only when a sync literal / AUTHENTICATE / IDLE waits for it; accepted literal arguments arrive byte-exact.",
   design_ref="DESIGN.md §3 C04",
   note="For a refused non-synchronising literal both RFC 7888 behaviours (discard, close) are accepted. Trusts the independent tokenizer internal/wiretok and the dialogue generator's by-construction knowledge of payload bytes."),
 
@@ -48,14 +48,14 @@ CHECKS = {
  "C01": dict(
   category="exploration",
   technique="runtime oracle: real imapwire.Encoder of one side -> bytes -> real Decoder of the peer side with sentinel/CRLF/EOF accounting, plus legality of the emitted bytes judged by the independent tokenizer; race/checkptr build",
-  text="Every value kind (strings via 4 decode paths, mailboxes, flags, attributes, numbers, number sets of both flavours and '$', list nestings around the cap, streamed literals) over 15 byte-string classes x 8 lengths around 4096 under all 16 encoder modes, plus random compositions. Decides value equality modulo the documented canonicalisations, exact byte consumption, legal syntax for the mode, and refusal of unrepresentable values.",
+  text="Every value kind (strings via 4 decode paths, mailboxes, flags, attributes, numbers, number sets of both flavours and '$', list nestings around the cap, streamed literals) over 15 byte-string classes x 8 lengths around 4096 under all 16 encoder modes, plus random compositions, plus long-lived sessions (one encoder and one decoder exchanging 2600..6000 lines of mixed values, > 1000 empty lists). Decides value equality modulo the documented canonicalisations, exact byte consumption, legal syntax for the mode, and refusal of unrepresentable values.",
   design_ref="DESIGN.md §3 C01",
   note="Sync literals use an already granted continuation request; 8-bit bytes in flags are not demanded to be refused."),
 
  "C06": dict(
   category="fault_enumeration",
   technique="runtime fault injection: byte-offset faults (EOF, reset, write error) injected by the instrumented in-process connection under a real imapserver connection with a counting stub backend; hostile-input workers with a 64 MB stack bound; race detector on",
-  text="For each of 12 valid transcripts (sync and non-sync literals, AUTHENTICATE exchange, IDLE, STARTTLS, implicit TLS, pipelining, long FETCH literal) every client->server byte offset x {EOF, reset} and every server->client offset x {write error} is enumerated (quick: all offsets of 5 transcripts, every 7th of the rest); after each cut the server must close its side, call Session.Close exactly once, stop Idle, and log no panic. Plus mutated/garbage inputs, literal-cap probes (4096 / APPEND limit) and deep-nesting families to 4*10^5 levels.",
+  text="For each of 12 valid transcripts (sync and non-sync literals, AUTHENTICATE exchange, IDLE, STARTTLS, implicit TLS, pipelining, long FETCH literal) every client->server byte offset x {EOF, reset} and every server->client offset x {write error} is enumerated (quick: all offsets of 5 transcripts, every 7th of the rest); after each cut the server must close its side, call Session.Close exactly once, stop Idle, and log no panic. Plus mutated/garbage inputs, literal-cap probes (4096 / APPEND limit / sizes >= 2^32; no continuation request may be sent for an over-the-cap literal) and deep-nesting families to 4*10^5 levels.",
   design_ref="DESIGN.md §3 C06",
   note="Backstops (40 s) are orders of magnitude above observed latencies; only literals are subject to the 4096-byte cap; stalls (peer silent but connected) are outside the property."),
 
@@ -69,7 +69,7 @@ CHECKS = {
  "C17": dict(
   category="exploration",
   technique="runtime trace monitor with marker injection: raw client / scripted peer over the instrumented in-process connection deliver injected plaintext after the STARTTLS line under every two-write split, one write and byte-at-a-time, then run a real crypto/tls handshake; recording stub backend and unilateral-data callbacks as observers; race detector on",
-  text="Server: 12 injected command suffixes x all splits x InsecureAuth on/off: no backend call or response (plaintext or inside TLS) may carry a marker, bytes after the tagged OK must be TLS records, credentials policy on plaintext. Client: 12 injected response suffixes x all splits x OK/PREAUTH/BYE greetings: no callback, capability, state change or command completion from injected bytes; PREAUTH and BYE refused. Positive controls without injection must complete the handshake and carry LOGIN/NOOP over TLS.",
+  text="Server: 12 injected command suffixes x all splits x InsecureAuth on/off: no backend call or response (plaintext or inside TLS) may carry a marker, bytes after the tagged OK must be TLS records; credential policy matrix {TLS configuration, none} x InsecureAuth x {plain, SASL, basic sessions} x 5 ways of presenting credentials (greeting and CAPABILITY must not offer, backend must not be reached on plaintext unless InsecureAuth; offered and accepted over STARTTLS and implicit TLS). Client: 12 injected response suffixes x all splits x OK/PREAUTH/BYE greetings: no callback, capability, state change or command completion from injected bytes; PREAUTH and BYE refused. Positive controls without injection must complete the handshake and carry LOGIN/NOOP over TLS.",
   design_ref="DESIGN.md §3 C17",
   note="Dropping the early plaintext is accepted as well as feeding it to the handshake. Trusts crypto/tls."),
 
@@ -83,7 +83,7 @@ CHECKS = {
  "C11": dict(
   category="exploration",
   technique="runtime monitoring of a real client fed hostile byte streams: recover()-guarded accessor walk over every returned value, reader-panic detection, worker processes with a 64 MB stack bound and heap guard (fatal errors attributed to the logged current stream), deterministic allocation counters on scaling families; race detector on",
-  text="Targeted invariant probes (with and without pending commands), grammar-generated responses of every kind the client parses with boundary numbers, byte/token mutations, raw garbage, 16 scaling families (8x range of N) and deep-nesting probes to 10^6 levels, each against a client with 20 pending commands of every kind. Decides: no reader or accessor panic, no fatal recursion, no zero/dynamic numbers delivered without error, no super-linear allocation per input byte.",
+  text="Targeted invariant probes (with and without pending commands), grammar-generated responses of every kind the client parses with boundary numbers, byte/token mutations, raw garbage, 16 scaling families (8x range of N), truncated-literal probes (19 buffered-string positions x announced sizes 64 MiB..2^63-1 with 3 octets sent: allocation must follow the bytes received), must-reject probes (overflowing numbers, over-deep nesting incl. message/rfc822 chains) and deep-nesting probes to 10^6 levels, each against a client with 20 pending commands of every kind. Decides: no reader or accessor panic, no fatal recursion, no zero/dynamic numbers delivered without error, no super-linear allocation per input byte.",
   design_ref="DESIGN.md §3 C11",
   note="CPU time is recorded nowhere as a verdict (allocation counters only); set-enumerating accessors are called only for spans <= 2*10^6; one known finding (ESEARCH span) is listed in known_findings.json."),
 
@@ -97,7 +97,7 @@ CHECKS = {
  "C18": dict(
   category="exploration",
   technique="runtime trace monitor: the client's output on the instrumented in-process connection is tokenised by the independent scanner and checked against the capability set the scripted server had advertised / enabled; the global ordered event log decides literal synchronisation (no payload byte before '+', none after a tagged refusal); race detector on",
-  text="Dialogues for 7 capability sets x string arguments from 16 classes in every command that takes strings x APPEND sizes around 4096 x SEARCH with non-ASCII text x four server reactions to synchronising literals ('+' at once, '+' after unrelated untagged data once the client is parked, tagged NO, tagged BAD), ending with a usability probe.",
+  text="Dialogues for 7 capability sets x string arguments from 16 classes in every command that takes strings x APPEND sizes around 4096 x SEARCH with non-ASCII text x four server reactions to synchronising literals ('+' at once, '+' after unrelated untagged data once the client is parked, tagged NO, tagged BAD) x five server answers to ENABLE (granted, OK with empty ENABLED, OK without ENABLED, NO, BAD; UTF8=ACCEPT counts as enabled only when listed in an ENABLED response), ending with a usability probe.",
   design_ref="DESIGN.md §3 C18",
   note="Capability sets are constant within a dialogue; UTF8=ACCEPT counts from the command after the ENABLED response."),
 
@@ -117,7 +117,7 @@ CHECKS = {
  "C03": dict(
   category="exploration",
   technique="runtime oracle at the client API boundary: a stub backend writes generated response plans through the real server's writer API, the real client decodes them over an in-process connection, and every Wait/Collect result is compared field-by-field (literals byte-for-byte, order preserved) with the plan under an explicit normalisation table; race detector on",
-  text="Sessions of 40..60 commands: FETCH over all attribute subsets with envelopes (NIL / empty / group address lists, 8-bit and quoted-special text), body structures nested to depth 3 with message/rfc822 and text parts and extension data, body and binary literals of sizes {0,1,2,100,4095,4096,4097,70000}, BINARY.SIZE; STATUS all items; LIST attributes / delimiters / CHILDINFO / OLDNAME / LIST-STATUS pairing; SEARCH vs ESEARCH; SELECT data incl. IMAP4rev2 LIST; APPENDUID; COPYUID tagged and untagged (MOVE and its COPY fallback); EXPUNGE streams; NAMESPACE; capabilities x 3 server configurations x {nothing, UTF8=ACCEPT, IMAP4rev2} enabled.",
+  text="Sessions of 40..60 commands (plus long-lived sessions of 2500..6000 commands on one connection): FETCH over all attribute subsets with envelopes (NIL / empty / group address lists, 8-bit and quoted-special text), body structures nested to depth 3 with message/rfc822 and text parts and extension data, body and binary literals of sizes {0,1,2,100,4095,4096,4097,70000}, BINARY.SIZE; STATUS all items; LIST attributes / delimiters / CHILDINFO / OLDNAME / LIST-STATUS pairing; SEARCH vs ESEARCH; SELECT data incl. IMAP4rev2 LIST; APPENDUID; COPYUID tagged and untagged (MOVE and its COPY fallback); EXPUNGE streams; NAMESPACE; capabilities x 3 server configurations x {nothing, UTF8=ACCEPT, IMAP4rev2} enabled.",
   design_ref="DESIGN.md §3 C03",
   note="Only data the wire format can carry is demanded (normalisation listed in the evidence assumptions); the server's encoder is the producer, so server-side encoding defects that the client happens to tolerate are seen only when the decoded value differs."),
  "C08": dict(
